@@ -93,25 +93,37 @@ func runIsoRace(c Case, emit Emitter) {
 	cf, of := tmp+"/case.ndjson", tmp+"/obs.ndjson"
 	cj, _ := json.Marshal(c)
 	os.WriteFile(cf, append(cj, '\n'), 0o644)
-	ctx, cancel := context.WithTimeout(context.Background(), 300*time.Second)
-	defer cancel()
-	cmd := exec.CommandContext(ctx, os.Args[0], "isoracechild", cf, of)
-	cmd.Env = append(os.Environ(), "GORACE=halt_on_error=0 exitcode=0")
-	var se bytes.Buffer
-	cmd.Stderr = &se
-	runErr := cmd.Run()
-	stderr := se.String()
+	// a child that dies without a recognisable runtime report (killed from outside, out of memory)
+	// is not an observation of the library: it is retried, then reported as a machinery failure
+	var stderr string
+	var runErr error
+	timedOut := false
+	for attempt := 0; attempt < 3; attempt++ {
+		os.Remove(of)
+		ctx, cancel := context.WithTimeout(context.Background(), 300*time.Second)
+		cmd := exec.CommandContext(ctx, os.Args[0], "isoracechild", cf, of)
+		cmd.Env = append(os.Environ(), "GORACE=halt_on_error=0 exitcode=0")
+		var se bytes.Buffer
+		cmd.Stderr = &se
+		runErr = cmd.Run()
+		timedOut = ctx.Err() != nil
+		cancel()
+		stderr = se.String()
+		if runErr == nil || isoFatalRe.MatchString(stderr) {
+			break
+		}
+	}
 	fatal := ""
 	if m := isoFatalRe.FindStringSubmatch(stderr); m != nil {
 		fatal = strings.TrimSpace(m[1])
-	} else if ctx.Err() != nil || runErr != nil {
+	} else if runErr != nil {
 		// not an observation of the library: the child was killed or could not run
 		head := stderr
 		if len(head) > 3000 {
 			head = head[:1500] + "\n...\n" + head[len(head)-1500:]
 		}
 		os.WriteFile(fmt.Sprintf("isorace-fail-%d.txt", c.ID), []byte(stderr), 0o644)
-		fmt.Fprintf(os.Stderr, "%s\nisorace: child failed on case %d (%v, timeout=%v)\n", head, c.ID, runErr, ctx.Err() != nil)
+		fmt.Fprintf(os.Stderr, "%s\nisorace: child failed on case %d (%v, timeout=%v)\n", head, c.ID, runErr, timedOut)
 		os.Exit(2)
 	}
 	// distinct final views over the rounds the child completed
